@@ -51,7 +51,9 @@ RULE = (
     "scalar kinds x {c*A,A*c,A/c,c/A,A+c,A-c,c+A,c-A}, every class x {neg,T,H,conj,gram} (exhaustive). 3) random trees "
     "(200 quick / 5000 thorough) of depth <=4 (quick) / <=7 (thorough) over leaves of size 1-6 (plain, 2-d, block shapes; broadcasting diagonals; "
     "f32/f64/c64/c128), ~6% ill-typed nodes. A case is non-trivial when it has at least one operation node; distinct "
-    "by its skeleton (structure, classes, shapes, dtypes, scalar kinds)."
+    "by its skeleton (structure, classes, shapes, dtypes, scalar kinds). 4) model-backed streams: random VerticalStack / "
+    "DiagonalStack of random expressions, freeze / Function.slice / join (every index in [-N-1, N]), DiagonalReplicated (every "
+    "axis in range, 15% out of range); jit-history: the same operator objects first used inside jax.jit, then eagerly."
 )
 ASSUMPTIONS = [
     "jax.linear_transpose returns the transpose of the dense matrix of a linear closure (real part for real primals)",
